@@ -121,7 +121,7 @@ def enumerate_target(tg, rec, label, max_events=None):
         return
     if tg.n_artifacts is not None and cc.calls:
         rec.count("ordering_checks")
-        if watch.extra_at_open != tg.n_artifacts:
+        if watch.extra_at_open is not None and watch.extra_at_open < tg.n_artifacts:  # (more calls than artifacts is not an ordering fault)
             rec.violation("ordering/%s/output-phase-starts-before-all-signatures-computed" % tg.kind,
                           "target opened for writing after %r of %d signatures" % (watch.extra_at_open, tg.n_artifacts), case)
     if watch.write_opens > 1:
